@@ -6,7 +6,7 @@
    are skipped by `step` itself, illegal random outcomes are rejected by `step` itself, so no
    hypothesis on the history is needed.  wf c  :=  0 < width /\ 0 < height. *)
 From Coq Require Import ZArith List Bool.
-From Mesa Require Import Common.ListX Model.LegacyGrid Proofs.LegacyGridProofs.
+From Mesa Require Import Common.ListX Model.LegacyGrid Proofs.LegacyGridProofs Proofs.LegacyGridSim.
 Import ListNotations.
 Open Scope Z_scope.
 
@@ -132,7 +132,7 @@ Print Assumptions C08_move_to_one_of_member_and_closest.
 Theorem C08_toroidal_distance_is_least : forall n d,
   0 < n -> (forall k, axis_dist true n d <= Z.abs (d + k * n)) /\
            (exists k, axis_dist true n d = Z.abs (d + k * n)).
-Proof. intros n d Hn. split; [intros k; exact (axis_dist_least n d k Hn)|exact (axis_dist_attained n d Hn)]. Qed.
+Proof. exact toroidal_distance_least. Qed.
 Print Assumptions C08_toroidal_distance_is_least.
 
 (* --- swap_pos exchanges the two positions and touches nobody else, or rejects unplaced agents *)
@@ -149,6 +149,21 @@ Theorem C08_rejected_call_changes_nothing : forall c n s o s' e,
   wf c -> Agree c s -> step c s o = (s', Err e) -> obs_state c n s' = obs_state c n s.
 Proof. exact C18_legacygrid_atomic. Qed.
 Print Assumptions C08_rejected_call_changes_nothing.
+
+(* --- ... and every continuation of the history is observed as if the call had not been made *)
+Theorem C08_rejected_call_continue : forall c n s o s' e rest,
+  wf c -> Agree c s -> step c s o = (s', Err e) -> run_obs c n s' rest = run_obs c n s rest.
+Proof. exact C18_legacygrid_atomic_continue. Qed.
+Print Assumptions C08_rejected_call_continue.
+
+(* --- "whether or not empties was ever read before": reading empties (ReadEmpties / ExistsEmpty
+       switch the lazily built set on) at any point of any history changes nothing that any later
+       call returns or shows *)
+Theorem C08_empties_read_is_transparent : forall c n ops rest,
+  wf c -> let s := run c init ops in
+  run_obs c n (fst (step c s ReadEmpties)) rest = run_obs c n s rest /\ run_obs c n (fst (step c s ExistsEmpty)) rest = run_obs c n s rest.
+Proof. exact empties_read_transparent_history. Qed.
+Print Assumptions C08_empties_read_is_transparent.
 
 (* ------------------------------------------------------------------ non-vacuity *)
 Definition ex_cfg_s : cfg := {| c_w := 3; c_h := 2; c_torus := true; c_multi := false |}.
@@ -225,4 +240,12 @@ Example C08_example_rejections_reachable :
   = [Err E_CELL_NOT_EMPTY; Err E_CELL_NOT_EMPTY; Err E_NOT_ON_GRID; Err E_BAD_SELECTION;
      Err E_NO_POSITIONS; Err E_CELL_NOT_EMPTY] /\
   snd (step ex_cfg_m (run ex_cfg_m init [Place 1 (0, 0)]) (Move 1 (3, 0))) = Err E_OOB.
+Proof. vm_compute. repeat split; congruence. Qed.
+
+(* C08_rejected_call_continue / C08_empties_read_is_transparent: a continuation that places, moves,
+   uses move_to_empty (choice branch) and reads the mask, from a state where empties is not built *)
+Example C08_example_transparent :
+  let s := run ex_cfg_m init [Place 1 (0, 0); Place 2 (0, 0)] in
+  let rest := [Move 1 (2, 1); MoveToEmpty 2 false (1, 1); Remove 1; ReadMask; ReadEmpties] in
+  built s = false /\ built (fst (step ex_cfg_m s ReadEmpties)) = true /\ length (run_obs ex_cfg_m 2 s rest) = 5%nat /\ run_obs ex_cfg_m 2 (fst (step ex_cfg_m s ReadEmpties)) rest = run_obs ex_cfg_m 2 s rest.
 Proof. vm_compute. repeat split; congruence. Qed.
